@@ -187,6 +187,13 @@ def apply_op(op: str, a: list, p: dict):
         else:
             t *= a[1]
         return t
+    if op in ("sort", "argsort"):
+        v = a[0].to_numpy()
+        if v is not None and v.ndim >= 2 and any(n == 0 for k, n in enumerate(v.shape) if k != p.get("axis", -1) % v.ndim):
+            # recorded C12 finding (sort/zero-extent-off-axis/interpreter-crash): onnxruntime's TopK kernel kills the
+            # interpreter (SIGFPE) on an operand with a zero extent off the sorted axis; such a program is skipped at these sizes, whether
+            # the zero extent comes from a size variable or from an empty slice
+            raise ValueError("sort with a zero extent off the axis: onnxruntime TopK crash (recorded C12 finding)")
     if op == "sort":
         return ndx.sort(a[0], axis=p.get("axis", -1), descending=p.get("descending", False))
     if op == "argsort":
@@ -204,6 +211,11 @@ def apply_op(op: str, a: list, p: dict):
     if op == "fill_null":
         return ndx.additional.fill_null(a[0], p["fill"])
     if op == "make_nullable":
+        va, vb = a[0].to_numpy(), a[1].to_numpy()
+        if va is not None and vb is not None and np.broadcast_shapes(np.shape(vb), np.shape(va)) != np.shape(va):
+            # the mask says "whether each element of x is null": it must broadcast *into* x's shape; a program that
+            # stops doing so at some size assignment is not admissible at those sizes (eager evaluation decides)
+            raise ValueError("make_nullable: the mask does not broadcast into the values' shape")
         return ndx.additional.make_nullable(a[0], a[1])
     if op == "isin":
         return ndx.additional.isin(a[0], p["items"])
